@@ -223,13 +223,27 @@ def rule_gadgets(repo, rule):
     lc = repo.cls(RT, "LinComb")
     # ------------------------------------------------------------ division
     dm = lc.methods["__divmod__"]
+    # the statement list that holds the division constraint (an isinstance arm, or the body after a guard clause)
+    class _Scope:
+        pass
     arm = None
-    for n in ast.walk(dm.node):
-        if isinstance(n, ast.If) and "isinstance" in norm(n.test) and "LinComb" in norm(n.test) and any(
-                "add_constraint" in norm(s) for s in n.body):
-            arm = n
+    cons_calls = [c for c in ast.walk(dm.node) if isinstance(c, ast.Call) and norm(c.func) == "add_constraint" and len(c.args) >= 3]
+    if cons_calls:
+        st = cons_calls[0]
+        while getattr(st, "_parent", None) is not None and not isinstance(st, ast.stmt):
+            st = st._parent
+        holder = getattr(st, "_parent", None)
+        arm = _Scope()
+        if isinstance(holder, ast.If) and st in holder.body:
+            arm.body = holder.body
+        elif isinstance(holder, ast.If):
+            arm.body = holder.orelse
+        else:
+            arm.body = list(getattr(holder, "body", dm.node.body))
+        arm.lineno = arm.body[0].lineno
+        arm.col_offset = arm.body[0].col_offset
     if arm is None:
-        raise AnalysisError("__divmod__ secret arm not found")
+        raise AnalysisError("__divmod__: no division constraint found")
     allocs = {norm(a.targets[0]): a for a in arm.body if isinstance(a, ast.Assign) and isinstance(a.value, ast.Call)
               and norm(a.value.func) == "PrivVal"}
     cons = [c for s in arm.body for c in ast.walk(s) if isinstance(c, ast.Call) and norm(c.func) == "add_constraint" and len(c.args) >= 3]
@@ -258,7 +272,7 @@ def rule_gadgets(repo, rule):
             else:
                 rule.violation(dm.loc(arm), dm.fq, "%s.%s(%s)" % (r, meth, ", ".join(args or [])), "range check missing or applied to "
                                "the wrong value: %s is not enforced, so the prover may shift the quotient" % why, "divmod/%s" % meth)
-        rets = [n for n in ast.walk(arm) if isinstance(n, ast.Return)]
+        rets = [n for s_ in arm.body for n in ast.walk(s_) if isinstance(n, ast.Return) and n.value is not None and norm(n.value) != "NotImplemented"]
         if rets and norm(rets[0].value).replace(" ", "") in ("(%s,%s)" % (q, r),):
             rule.ok(dm.loc(rets[0]), dm.fq, "returns (quotient, remainder)")
         else:
